@@ -165,9 +165,11 @@ async fn history(role: Role, max_len: usize, ch: &mut dyn Choose) -> Outc {
                 _ => app.proto_plans.borrow_mut().push_back(ProtoPlan { gated, answer: ProtoAnswer::Ack }),
             }
         }
+        // a re-sent PUBLISH carries the DUP flag: it is still a second packet with an identifier in use
+        let dup = !matches!(state, IdState::Free) && matches!(kind, Kind::Pub1 | Kind::Pub2) && ch.pick(2) == 1;
         let pkt = match kind {
-            Kind::Pub1 => R::Publish { dup: false, qos: 1, retain: false, topic: "a".into(), pid: Some(id as u16), props: vec![], payload: vec![n as u8] },
-            Kind::Pub2 => R::Publish { dup: false, qos: 2, retain: false, topic: "a".into(), pid: Some(id as u16), props: vec![], payload: vec![n as u8] },
+            Kind::Pub1 => R::Publish { dup, qos: 1, retain: false, topic: "a".into(), pid: Some(id as u16), props: vec![], payload: vec![n as u8] },
+            Kind::Pub2 => R::Publish { dup, qos: 2, retain: false, topic: "a".into(), pid: Some(id as u16), props: vec![], payload: vec![n as u8] },
             Kind::Sub => R::Subscribe { pid: id as u16, props: vec![], filters: vec![("f".into(), 0)] },
             Kind::Unsub => R::Unsubscribe { pid: id as u16, props: vec![], filters: vec!["f".into()] },
             Kind::Rel => R::PubRel { pid: id as u16, code, props: None },
@@ -180,7 +182,7 @@ async fn history(role: Role, max_len: usize, ch: &mut dyn Choose) -> Outc {
         let entered = app.count(|e| matches!(e, Ev::PubEnter { .. } | Ev::ProtoEnter { .. })) > enters_before;
         let stops = app.stops();
         let new_wire: Vec<R> = app.wire().iter().skip(wire_before).map(|x| x.1.clone()).collect();
-        let descr = format!("{kind:?} id {id} while id is {state:?}");
+        let descr = format!("{kind:?}{} id {id} while id is {state:?}", if dup { " (DUP)" } else { "" });
         if expect_accept {
             if !entered {
                 o.violations.push((
